@@ -121,7 +121,7 @@ def coherence_record(gtirb, ir):
         saves = True
     except Exception:
         saves = False
-    return {"outcome": "ir", "head": [71, 84, 73, 82, 66, 0, 0, 0], "pv": 0,
+    return {"outcome": "ir", "head": [71, 84, 73, 82, 66, 0, 0, 0], "pv": 0, "version": ir.version,
             "kind": kind, "kids": kids, "par": par, "cache": cache, "uuids_distinct": len(set(uu)) == len(uu),
             "foreign_hits": foreign, "refs": refs,
             "bytes": [[len(o.contents), o.size] for n, o in objs if kind[n] == "biv"], "saves_again": saves}
@@ -220,6 +220,8 @@ def do_loadfault(env, op, pending):
         data = protomsg.file_bytes(im, version=(PROTOBUF_VERSION + 1) % 256)
     elif f == "bad-version-field":
         im.version = PROTOBUF_VERSION + 1
+    elif f == "zero-version-field":
+        im.version = 0                       # proto3: the same bytes as an absent field
     elif f == "truncated-header":
         data = protomsg.file_bytes(im)[:4]
     else:
@@ -278,5 +280,5 @@ def outcome_record(gtirb, data, pv, out):
         r.update(head=head, pv=pv)
         return r
     oc = "hang" if out[0] == "hang" else "exc:" + out[1]
-    return {"outcome": oc, "head": head, "pv": pv, "kind": {}, "kids": {}, "par": {}, "cache": [], "uuids_distinct": True,
+    return {"outcome": oc, "head": head, "pv": pv, "version": pv, "kind": {}, "kids": {}, "par": {}, "cache": [], "uuids_distinct": True,
             "foreign_hits": [], "refs": [], "bytes": [], "saves_again": True}
